@@ -191,6 +191,12 @@ fn run_case(c: &Case) -> CaseOut {
                     "c08" => oracles::c08_canonical(&c.input, &c.cfg, c.well_formed),
                     "c09" => oracles::c09_line_endings(&c.input, &c.cfg),
                     "c10" if c.well_formed => oracles::c10_indentation(&c.input, &c.cfg),
+                    "c11" if c.well_formed && c.family == "boundary" => {
+                        let mut v = oracles::c11_wrap_column(&c.input, &c.cfg, c.cfg.wrap_column, c.w2);
+                        v.extend(oracles::c11_sweep(&c.input, &c.cfg));
+                        v.dedup();
+                        v
+                    }
                     "c11" if c.well_formed => oracles::c11_wrap_column(&c.input, &c.cfg, c.cfg.wrap_column, c.w2),
                     "c12" => oracles::c12_multiline_strings(&c.input, &c.cfg),
                     "c14" => oracles::c14_lines(&c.input, c.well_formed),
@@ -336,6 +342,32 @@ fn run_case(c: &Case) -> CaseOut {
     }
 }
 
+/// `boundary` family: a wrap column within two columns of the width of one of the lines the formatter produces
+/// at a generous width (preferring lines that end in a line comment), so that exact-fit decisions are exercised.
+fn boundary_width(input: &str, cfg: &Cfg, r: &mut Rng) -> u32 {
+    let mut wide = cfg.clone();
+    wide.wrap_column = 200;
+    let (tx, rx) = std::sync::mpsc::channel();
+    let inp = input.to_string();
+    std::thread::spawn(move || {
+        let res = std::panic::catch_unwind(|| stages::run_real(&inp, &wide, &[]).0);
+        let _ = tx.send(res.ok());
+    });
+    let out = match rx.recv_timeout(Duration::from_secs(5)) {
+        Ok(Some(o)) => String::from_utf8_lossy(&o).to_string(),
+        _ => return *r.pick(&[20u32, 40, 60, 80]),
+    };
+    let lines: Vec<&str> = out.lines().filter(|l| l.chars().count() >= 8).collect();
+    if lines.is_empty() {
+        return *r.pick(&[20u32, 40, 60, 80]);
+    }
+    let commented: Vec<&&str> = lines.iter().filter(|l| l.contains("//")).collect();
+    let line: &str = if !commented.is_empty() && r.chance(2, 3) { **r.pick(&commented) } else { *r.pick(&lines) };
+    let l = line.chars().count() as i64;
+    let d = *r.pick(&[-3i64, -2, -1, -1, 0, 0, 1, 1, 2]);
+    (l + d).max(1) as u32
+}
+
 fn gen_inputs(family: &str, rng: &mut Rng, n: usize, seeds: &[String]) -> Vec<String> {
     let mut v = Vec::with_capacity(n);
     match family {
@@ -370,6 +402,15 @@ fn gen_inputs(family: &str, rng: &mut Rng, n: usize, seeds: &[String]) -> Vec<St
                     tabs: rng.chance(1, 3),
                     tight: rng.chance(1, 3),
                 };
+                v.push(render_layout(&p, rng, o));
+            }
+        }
+        "boundary" => {
+            // small commented programs; the wrap column is chosen afterwards next to an actual line width
+            for _ in 0..n {
+                let budget = *rng.pick(&[5, 15, 15, 40]);
+                let p = gen_program(rng, budget);
+                let o = LayoutOpts { comments: true, directives: false, blank_lines: rng.chance(1, 3), crlf: false, tabs: false, tight: rng.chance(1, 4) };
                 v.push(render_layout(&p, rng, o));
             }
         }
@@ -621,7 +662,7 @@ fn cmd_emit(a: &Args) {
     for (input, cfg) in corpus_inputs(&stream, &only) {
         let cursors: Vec<u32> = a.get("replay_cursors", "").split(',').filter_map(|x| x.trim().parse().ok()).collect();
         let wf = a.get("replay_well_formed", "0") == "1";
-        cases.push(Case { stream: stream.clone(), family: "corpus".into(), input, cfg, cursors, oracles: oracle_list.clone(), well_formed: wf, w2: a.num("replay_w2", 80) as u32, input2: None, marks: vec![], texts: vec![] });
+        cases.push(Case { stream: stream.clone(), family: a.get("replay_family", "corpus"), input, cfg, cursors, oracles: oracle_list.clone(), well_formed: wf, w2: a.num("replay_w2", 80) as u32, input2: None, marks: vec![], texts: vec![] });
     }
     let per = if only.is_empty() { (count + families.len() - 1) / families.len().max(1) } else { 0 };
     for fam in &families {
@@ -653,8 +694,11 @@ fn cmd_emit(a: &Args) {
         let mut r = rng.fork();
         let inputs = gen_inputs(fam, &mut r, per, &seeds);
         for input in inputs {
-            let cfg = if stream == "lex" { Cfg::default() } else { Cfg::random(&mut r) };
-            let well_formed = matches!(fam.as_str(), "grammar" | "layout" | "seeds" | "seeds_sample" | "regions" | "mlsfam")
+            let mut cfg = if stream == "lex" { Cfg::default() } else { Cfg::random(&mut r) };
+            if fam == "boundary" {
+                cfg.wrap_column = boundary_width(&input, &cfg, &mut r);
+            }
+            let well_formed = matches!(fam.as_str(), "grammar" | "layout" | "seeds" | "seeds_sample" | "regions" | "mlsfam" | "boundary")
                 && !(fam.starts_with("seeds") && oracles::has_unterminated_token(&input));
             let mut cursors = vec![];
             if oracle_list.iter().any(|o| o == "c15") {
@@ -675,7 +719,11 @@ fn cmd_emit(a: &Args) {
             if a.get("cursors_all", "0") == "1" && input.len() <= 160 {
                 cursors = (0..=input.len() + 2).filter(|p| *p >= input.len() || input.is_char_boundary(*p)).map(|p| p as u32).collect();
             }
-            let w2 = *r.pick(&[10u32, 20, 30, 40, 60, 80, 100, 120, 160, 200]);
+            let mut w2 = *r.pick(&[10u32, 20, 30, 40, 60, 80, 100, 120, 160, 200]);
+            if fam == "boundary" {
+                // mostly compare with a width at which everything fits
+                w2 = *r.pick(&[200u32, 200, 120, cfg.wrap_column + 1, cfg.wrap_column + 8, w2]);
+            }
             cases.push(Case { stream: stream.clone(), family: fam.clone(), input, cfg, cursors, oracles: oracle_list.clone(), well_formed, w2, input2: None, marks: vec![], texts: vec![] });
         }
     }
